@@ -10,7 +10,7 @@ import ast
 import hashlib
 import itertools
 import z3
-from .types import (Ty, INT, BOOL, STR, ATOM, BYTES, REAL, Ref, Enum, SetOf, SeqOf, Opt, MapOf, Rec, atom)
+from .types import (Ty, INT, BOOL, STR, ATOM, BYTES, REAL, Ref, Enum, SetOf, SeqOf, Opt, MapOf, Rec, ListOf, atom)
 
 
 class Unsupported(Exception):
@@ -551,7 +551,7 @@ class Exec:
 
     def wrap(self, t, ty):
         """turn a z3 term of type ty into a value (containers get a box)"""
-        if isinstance(ty, (SetOf, SeqOf, MapOf)):
+        if isinstance(ty, (SetOf, SeqOf, MapOf, ListOf)):
             return self.newbox(t, ty)
         return V(t, ty)
 
@@ -595,6 +595,11 @@ class Exec:
             for e in v:
                 t = z3.Store(t, self.to_z3(e, ty.elem), True)
             return t
+        if isinstance(ty, ListOf):
+            arr = ty.arr(ty.empty())
+            for i, e in enumerate(v):
+                arr = z3.Store(arr, i, self.to_z3(e, ty.elem))
+            return ty.mk(z3.IntVal(len(v)), arr)
         if isinstance(ty, SeqOf):
             us = [z3.Unit(self.to_z3(e, ty.elem)) for e in v]
             return ty.empty() if not us else (us[0] if len(us) == 1 else z3.Concat(*us))
@@ -659,6 +664,8 @@ class Exec:
                 return t != v.ty.empty()
             if isinstance(v.ty, SeqOf):
                 return z3.Length(t) > 0
+            if isinstance(v.ty, ListOf):
+                return v.ty.len(t) > 0
             if isinstance(v.ty, MapOf):
                 return t != v.ty.empty()
         if isinstance(v, Iter):
@@ -706,7 +713,11 @@ class Exec:
             src = ast.unparse(call.func)
         except Exception:
             return False
-        return any(src.startswith(p) for p in LOGGING)
+        if src == 'print':
+            return True
+        parts = src.split('.')
+        return len(parts) >= 2 and parts[0] in ('log', 'LOG', 'logging', 'logger') and parts[-1] in (
+            'debug', 'info', 'warning', 'warn', 'error', 'critical', 'exception', 'log', 'excpetion')
 
     def st_Return(self, s):
         raise _Return(self.eval(s.value) if s.value is not None else None)
@@ -874,7 +885,10 @@ class Exec:
         elif isinstance(tgt, ast.Subscript):
             base = self.eval(tgt.value)
             key = self.eval(tgt.slice)
-            self.call_method(base, '__setitem__', [key, v], {}, line)
+            if isinstance(base, V) and isinstance(base.ty, Ref) and isinstance(key, str) and self.world.field_type('%s.%s' % (base.ty.cls, key)) is not None:
+                self.set_field(base, key, v, line)
+            else:
+                self.call_method(base, '__setitem__', [key, v], {}, line)
         else:
             raise Unsupported('assignment target %s' % type(tgt).__name__)
 
@@ -912,7 +926,7 @@ class Exec:
             raise Unsupported('no declared field %s' % fk)
         if fk not in self.st.heap:
             raise Unsupported('field %s not initialised' % fk)
-        if isinstance(fty, (SetOf, SeqOf, MapOf)):
+        if isinstance(fty, (SetOf, SeqOf, MapOf, ListOf)):
             return C(FieldLoc(fk, ref.t), fty)
         return V(self.st.heap[fk][ref.t], fty)
 
@@ -926,7 +940,7 @@ class Exec:
 
     def get_global(self, gk):
         gty = self.world.global_type(gk)
-        if isinstance(gty, (SetOf, SeqOf, MapOf)):
+        if isinstance(gty, (SetOf, SeqOf, MapOf, ListOf)):
             return C(GlobLoc(gk), gty)
         return V(self.st.glob[gk], gty)
 
@@ -1200,6 +1214,10 @@ class Exec:
                 return t[self.to_z3(x, coll.ty.elem)]
             if isinstance(coll.ty, SeqOf):
                 return z3.Contains(t, z3.Unit(self.to_z3(x, coll.ty.elem)))
+            if isinstance(coll.ty, ListOf):
+                j = z3.Int(self.path.fresh_name('in_j'))
+                xt = self.to_z3(x, coll.ty.elem)
+                return z3.Exists([j], z3.And(0 <= j, j < coll.ty.len(t), coll.ty.arr(t)[j] == xt))
             if isinstance(coll.ty, MapOf):
                 return z3.Not(coll.ty.opt.is_none(t[self.to_z3(x, coll.ty.k)]))
         if isinstance(coll, V):
@@ -1293,6 +1311,20 @@ class Exec:
         raise Unsupported('collection operator %s on %s' % (type(op).__name__, ty))
 
     def ev_JoinedStr(self, e):
+        if getattr(self.k, 'opaque_fstrings', False):
+            # exact for equality reasoning: an f-string is a function of the values it formats
+            tpl, vals = '', []
+            for v in e.values:
+                if isinstance(v, ast.Constant):
+                    tpl += str(v.value)
+                else:
+                    tpl += '{}'
+                    vals.append(self.eval(v.value))
+            if not any(self.is_sym(v) for v in vals):
+                return tpl.format(*vals)
+            tys = [self.ty_of(v) for v in vals]
+            f = fstring_fn(tpl, tys)
+            return V(f(*[self.to_z3(v, t) for v, t in zip(vals, tys)]), STR)
         parts = []
         for v in e.values:
             if isinstance(v, ast.Constant):
@@ -1318,6 +1350,15 @@ class Exec:
             base = self.materialize(base)
         if not self.is_sym(base) and not self.is_sym(lo) and not self.is_sym(hi):
             return base[lo:hi]
+        if isinstance(base, C) and isinstance(base.ty, ListOf):
+            ty = base.ty
+            t = self.read(base)
+            n = ty.len(t)
+            lo_t = self._slice_bound(lo, n, z3.IntVal(0), line)
+            hi_t = self._slice_bound(hi, n, n, line)
+            cnt = z3.If(hi_t > lo_t, hi_t - lo_t, z3.IntVal(0))
+            j = z3.Int(self.path.fresh_name('sl_j'))
+            return self.newbox(ty.mk(cnt, z3.Lambda([j], ty.arr(t)[j + lo_t])), ty)
         if isinstance(base, C) and isinstance(base.ty, SeqOf):
             t, ty = self.read(base), base.ty
         elif isinstance(base, V) and base.ty in (STR, BYTES):
@@ -1371,6 +1412,8 @@ class Exec:
             raise _Raise('IndexError', line)
         if isinstance(base, C):
             return self.call_method(base, '__getitem__', [key], {}, line)
+        if isinstance(base, V) and isinstance(base.ty, Ref) and isinstance(key, str) and self.world.field_type('%s.%s' % (base.ty.cls, key)) is not None:
+            return self.get_field(base, key, line)      # a dict with a fixed set of string keys, modelled as a record object
         if isinstance(base, V):
             if base.ty in (STR, BYTES):
                 k = self._num(key)
@@ -1735,7 +1778,9 @@ class Exec:
         cty = coll.ty
         it_term = self.read(coll)            # snapshot of the iterated collection (what the real iterator walks)
         entry = self.st.snap()
-        is_seq = isinstance(cty, SeqOf)
+        is_seq = isinstance(cty, (SeqOf, ListOf))
+        is_lst = isinstance(cty, ListOf)
+        it_len = (cty.len(it_term) if is_lst else (z3.Length(it_term) if is_seq else None))
         elem_ty = cty.elem
         done0 = z3.IntVal(0) if is_seq else SetOf(elem_ty).empty()
 
@@ -1758,8 +1803,8 @@ class Exec:
             self._havoc(s, spec, entry)
             done = self.fresh('done', INT if is_seq else SetOf(elem_ty))
             if is_seq:
-                self.assume(z3.And(done >= 0, done < z3.Length(it_term)))
-                x_t = it_term[done]
+                self.assume(z3.And(done >= 0, done < it_len))
+                x_t = cty.arr(it_term)[done] if is_lst else it_term[done]
                 done_next = done + 1
             else:
                 x_t = self.fresh('x', elem_ty)
@@ -1798,7 +1843,7 @@ class Exec:
             raise _PathEnd()
         # after the loop: everything iterated
         self._havoc(s, spec, entry)
-        done_all = z3.Length(it_term) if is_seq else it_term
+        done_all = it_len if is_seq else it_term
         for f in inv_at(self.st.snap(), done_all, 'assume').values():
             self.assume(f)
         for nm in self._target_names(s):
@@ -1978,7 +2023,10 @@ class Exec:
             self.assume(f)
         # exceptional outcomes
         for exc, condf in (getattr(kc, 'raises', {}) or {}).items():
-            cond = condf(c0) if callable(condf) else None
+            if condf == 'maybe':
+                cond = self.fresh('raises_' + exc, BOOL)      # may or may not raise: both outcomes are explored
+            else:
+                cond = condf(c0) if callable(condf) else None
             if cond is None:
                 continue
             self.maybe_raise(exc, cond, line)
@@ -2053,7 +2101,7 @@ def _merge_states(ex, base, a, b, c):
         else:
             try:
                 ty = ex.ty_of(va) if ex.is_sym(va) else ex.ty_of(vb)
-                if isinstance(ty, (SetOf, SeqOf, MapOf)):
+                if isinstance(ty, (SetOf, SeqOf, MapOf, ListOf)):
                     return None
                 m.env[k] = V(z3.If(c, ex.to_z3(va, ty), ex.to_z3(vb, ty)), ty)
             except Exception:
@@ -2082,6 +2130,16 @@ def _merge_states(ex, base, a, b, c):
         m.qh.append(QHyp(q.vars, z3.Implies(z3.Not(c), q.body), q.label))
     m.ghost = dict(a.ghost)
     return m
+
+
+_fstr = {}
+
+
+def fstring_fn(tpl, tys):
+    key = (tpl, tuple(t.name for t in tys))
+    if key not in _fstr:
+        _fstr[key] = z3.Function('fstr!%d!%s' % (len(_fstr), tpl[:20]), *([t.sort() for t in tys] + [STR.sort()]))
+    return _fstr[key]
 
 
 def _occurs(f, v):
